@@ -100,3 +100,12 @@ elif FLOAT_MODEL == 'ieee':
   _bl._PYTYPE_TO_WRAPPER_TYPE[float] = ((_bl.PreciseIeeeSymbolicFloat, 1.0),)
   STUBS['float_model'] = 'symbolic floats are z3 IEEE-754 doubles (PreciseIeeeSymbolicFloat)'
 ENABLED = tuple(ENABLED) + ('float_model',)
+
+# Harnesses whose float inputs are finite by precondition (nan/inf are rejected when the object under test is built)
+# ask for finite-only symbolic floats: each float argument otherwise costs a 4-way case split (finite/nan/+inf/-inf).
+if os.environ.get('VERIF_FINITE_FLOATS') == '1':
+  import warnings as _warnings
+  _warnings.filterwarnings('ignore', category=FutureWarning)
+  os.environ['CROSSHAIR_ONLY_FINITE_FLOATS'] = '1'
+  STUBS['finite_floats'] = 'symbolic float arguments range over finite reals only (non-finite inputs are outside this obligation)'
+  ENABLED = tuple(ENABLED) + ('finite_floats',)
